@@ -238,6 +238,7 @@ func TestC20(t *testing.T) {
 const c20LawsTest = `package PKG
 
 import (
+	"fmt"
 	"reflect"
 	"testing"
 
@@ -333,6 +334,100 @@ func bump(v reflect.Value) bool {
 	return true
 }
 
+// variant applies the kind-th structural change to a field (false: not applicable).
+// The changes keep sizes where they can: equality code that only compares lengths, or
+// looks values up without checking presence, must still notice them.
+func variant(v reflect.Value, kind int) bool {
+	switch v.Kind() {
+	case reflect.Map:
+		if v.Len() == 0 {
+			return false
+		}
+		keys := v.MapKeys()
+		k := keys[0]
+		for _, o := range keys { // deterministic choice: the smallest rendering
+			if fmtValue(o) < fmtValue(k) {
+				k = o
+			}
+		}
+		fresh := reflect.New(v.Type().Key()).Elem()
+		fresh.Set(k)
+		for i := 0; i < 8 && v.MapIndex(fresh).IsValid(); i++ {
+			bump(fresh)
+		}
+		if v.MapIndex(fresh).IsValid() {
+			return false
+		}
+		old := v.MapIndex(k)
+		zero := reflect.Zero(v.Type().Elem())
+		switch kind {
+		case 0: // another key takes over the value
+			v.SetMapIndex(k, reflect.Value{})
+			v.SetMapIndex(fresh, old)
+		case 1: // another key, holding the zero value
+			v.SetMapIndex(k, reflect.Value{})
+			v.SetMapIndex(fresh, zero)
+		case 2: // same keys, one value zeroed
+			if old.IsZero() {
+				return false
+			}
+			v.SetMapIndex(k, zero)
+		case 3: // one more key holding the zero value
+			v.SetMapIndex(fresh, zero)
+		default:
+			return false
+		}
+		return true
+	case reflect.Slice:
+		if v.Len() == 0 {
+			return false
+		}
+		switch kind {
+		case 0: // last element zeroed
+			if v.Index(v.Len() - 1).IsZero() {
+				return false
+			}
+			c := reflect.MakeSlice(v.Type(), v.Len(), v.Len())
+			reflect.Copy(c, v)
+			c.Index(v.Len() - 1).Set(reflect.Zero(v.Type().Elem()))
+			v.Set(c)
+		case 1: // one element fewer
+			c := reflect.MakeSlice(v.Type(), v.Len()-1, v.Len()-1)
+			reflect.Copy(c, v)
+			v.Set(c)
+		case 2: // one zero element more
+			v.Set(reflect.Append(v.Slice(0, v.Len()), reflect.Zero(v.Type().Elem())))
+		default:
+			return false
+		}
+		return true
+	case reflect.Ptr:
+		if v.IsNil() {
+			return false
+		}
+		switch kind {
+		case 0: // pointee zeroed
+			if v.Elem().IsZero() {
+				return false
+			}
+			v.Set(reflect.New(v.Type().Elem()))
+		case 1:
+			v.Set(reflect.Zero(v.Type()))
+		default:
+			return false
+		}
+		return true
+	default:
+		if kind != 0 || v.IsZero() {
+			return false
+		}
+		v.Set(reflect.Zero(v.Type()))
+		return true
+	}
+}
+
+func fmtValue(v reflect.Value) string { return fmt.Sprintf("%v", v.Interface()) }
+
 func TestGeneratedModel(t *testing.T) {
 	cm, err := FullDatabaseModel()
 	if err != nil {
@@ -409,6 +504,25 @@ func TestGeneratedModel(t *testing.T) {
 				}
 				if !reflect.DeepEqual(a, before) {
 					t.Fatalf("VERIF-GEN table %s: modifying a clone (field %s) changed the original", table, vc.Type().Field(i).Name)
+				}
+			}
+			// size-preserving and zero-valued changes of one field
+			for i := 0; i < vc.NumField(); i++ {
+				if vc.Type().Field(i).Tag.Get("ovsdb") == "" {
+					continue
+				}
+				for kind := 0; kind < 4; kind++ {
+					d := model.Clone(a)
+					if !variant(reflect.ValueOf(d).Elem().Field(i), kind) {
+						continue
+					}
+					want := reflect.DeepEqual(a, d)
+					if model.Equal(a, d) != want || model.Equal(d, a) != want {
+						t.Fatalf("VERIF-GEN table %s: field %s changed (variant %d): Equal says %v / %v, field-wise comparison says %v\n a %+v\n d %+v", table, vc.Type().Field(i).Name, kind, model.Equal(a, d), model.Equal(d, a), want, a, d)
+					}
+					if !reflect.DeepEqual(a, before) {
+						t.Fatalf("VERIF-GEN table %s: modifying a clone (field %s, variant %d) changed the original", table, vc.Type().Field(i).Name, kind)
+					}
 				}
 			}
 		}
